@@ -475,9 +475,18 @@ func c12Invalid(e *core.Env, rep *core.Report, bin, root string) {
 		{conv: []string{"wrapErrors"}, meth: []string{"wrapErrorsUsing vcase/w/ea"}}, {conv: []string{"wrapErrorsUsing vcase/w/ea"}, meth: []string{"wrapErrors"}},
 		{cli: []string{"wrapErrors"}, meth: []string{"wrapErrorsUsing vcase/w/ea"}}, {meth: []string{"wrapErrors", "wrapErrorsUsing vcase/w/ea"}},
 	}
-	base := func(conv, meth []string) string {
+	base := func(conv, meth, fn []string) string {
 		var sb strings.Builder
-		sb.WriteString("package p\n\ntype In struct{ V int; Nested struct{ W int } }\ntype Out struct{ V int }\nfunc F(s string) string { return s }\nfunc New() Out { return Out{} }\n\n// goverter:converter\n")
+		sb.WriteString("package p\n\ntype In struct{ V int; Nested struct{ W int } }\ntype Out struct{ V int }\nfunc F(s string) string { return s }\nfunc New() Out { return Out{} }\n\n")
+		if len(fn) > 0 {
+			// a custom function that carries the line in its own doc comment
+			sb.WriteString("type Ctx struct{ N int }\n\n// Fx converts.\n")
+			for _, l := range fn {
+				sb.WriteString("// goverter:" + l + "\n")
+			}
+			sb.WriteString("func Fx(v int, c Ctx) int { return v + c.N }\n\n")
+		}
+		sb.WriteString("// goverter:converter\n")
 		for _, l := range conv {
 			sb.WriteString("// goverter:" + l + "\n")
 		}
@@ -485,13 +494,18 @@ func c12Invalid(e *core.Env, rep *core.Report, bin, root string) {
 		for _, l := range meth {
 			sb.WriteString("\t// goverter:" + l + "\n")
 		}
-		sb.WriteString("\tConvert(source In) Out\n}\n")
+		if len(fn) > 0 {
+			sb.WriteString("\tConvert(source In, c Ctx) Out\n}\n")
+		} else {
+			sb.WriteString("\tConvert(source In) Out\n}\n")
+		}
 		return sb.String()
 	}
 	type job struct {
 		name       string
 		cli        []string
 		conv, meth []string
+		fn         []string
 		why, line  string
 		level      string
 	}
@@ -508,6 +522,23 @@ func c12Invalid(e *core.Env, rep *core.Report, bin, root string) {
 		}
 		jobs = append(jobs, j)
 	}
+	// settings written on a custom function: only context is defined there
+	for i, l := range []string{"nonsense foo", "context", "context a b", "ignore V", "contextt c", "extend F", "wrapErrors"} {
+		for k, use := range [][]string{{"extend Fx"}, {"extend Fx.*"}} {
+			jobs = append(jobs, job{name: fmt.Sprintf("f%02d%d", i, k), conv: use, meth: []string{"context c"}, fn: []string{"context c", l}, why: "unknown or malformed setting on a custom function", line: l, level: "function"})
+		}
+		jobs = append(jobs, job{name: fmt.Sprintf("f%02dm", i), meth: []string{"context c", "map V V | Fx"}, fn: []string{l, "context c"}, why: "unknown or malformed setting on a custom function", line: l, level: "function"})
+	}
+	// controls: the same programs with the valid line only must be accepted
+	jobs = append(jobs, job{name: "fctl0", conv: []string{"extend Fx"}, meth: []string{"context c"}, fn: []string{"context c"}, why: "control", line: "context c", level: "function"})
+	jobs = append(jobs, job{name: "fctl1", conv: []string{"extend Fx.*"}, meth: []string{"context c"}, fn: []string{"context c"}, why: "control", line: "context c", level: "function"})
+	jobs = append(jobs, job{name: "fctl2", meth: []string{"context c", "map V V | Fx"}, fn: []string{"context c"}, why: "control", line: "context c", level: "function"})
+	// settings that need the struct format, in both orders and across levels
+	for i, l := range []string{"name Foo", "struct:comment hello"} {
+		jobs = append(jobs, job{name: fmt.Sprintf("o%02da", i), conv: []string{"output:format function", l}, why: "struct-only setting with output:format function", line: l + " after output:format function", level: "converter"})
+		jobs = append(jobs, job{name: fmt.Sprintf("o%02db", i), conv: []string{l, "output:format function"}, why: "struct-only setting with output:format function", line: l + " before output:format function", level: "converter"})
+		jobs = append(jobs, job{name: fmt.Sprintf("o%02dc", i), cli: []string{"output:format function"}, conv: []string{l}, why: "struct-only setting with output:format function", line: l + " with -g output:format function", level: "converter"})
+	}
 	for i, c := range conflicts {
 		lvl := "converter"
 		if len(c.meth) > 0 {
@@ -519,7 +550,7 @@ func c12Invalid(e *core.Env, rep *core.Report, bin, root string) {
 		// quick: a seed-rotated half
 		var sel []job
 		for i, j := range jobs {
-			if (i+int(e.Seed))%2 == 0 || strings.HasPrefix(j.name, "w") {
+			if (i+int(e.Seed))%2 == 0 || strings.HasPrefix(j.name, "w") || strings.HasPrefix(j.name, "f") || strings.HasPrefix(j.name, "o") {
 				sel = append(sel, j)
 			}
 		}
@@ -536,7 +567,7 @@ func c12Invalid(e *core.Env, rep *core.Report, bin, root string) {
 			}
 			return o
 		}
-		writeFiles(dir, map[string]string{"p/input.go": base(fix(j.conv), fix(j.meth)), "ea/ea.go": fmt.Sprintf(wrapPkg, "ea")})
+		writeFiles(dir, map[string]string{"p/input.go": base(fix(j.conv), fix(j.meth), j.fn), "ea/ea.go": fmt.Sprintf(wrapPkg, "ea")})
 		args := []string{"gen"}
 		for k, l := range fix(j.cli) {
 			flag := "-g"
@@ -548,6 +579,12 @@ func c12Invalid(e *core.Env, rep *core.Report, bin, root string) {
 		args = append(args, "./p")
 		gr := runGen(e, bin, dir, dir, args, nil)
 		det := fmt.Sprintf("%s at %s level: %q\nargs=%v exit=%d\nstderr=%s", j.why, j.level, j.line, args, gr.Exit, head(gr.Stderr, 1000))
+		if j.why == "control" {
+			if gr.Exit != 0 {
+				viols[i] = &core.Viol{Kind: "valid_rejected", Case: j.name, Summary: "control program with a valid goverter:context line on a custom function was rejected", Detail: det, Dir: dir, Tags: []string{"level:" + j.level}}
+			}
+			return
+		}
 		if gr.Exit != 1 || strings.TrimSpace(gr.Stderr) == "" {
 			viols[i] = &core.Viol{Kind: "invalid_accepted", Case: j.name, Summary: fmt.Sprintf("%s (%q at %s level) was not rejected, exit %d", j.why, j.line, j.level, gr.Exit), Detail: det, Dir: dir, Tags: []string{"level:" + j.level}}
 			return
